@@ -18,6 +18,9 @@ func safeAdd(balance, amount int64) (int64, error) {
 
 // GenesisInit 生成创世地址账户收据
 func (acc *DB) GenesisInit(addr string, amount int64) (receipt *types.Receipt, err error) {
+	if amount < 0 {
+		return nil, types.ErrAmount
+	}
 	accTo := acc.LoadAccount(addr)
 	copyto := types.CloneAccount(accTo)
 	accTo.Balance, err = safeAdd(accTo.GetBalance(), amount)
@@ -35,6 +38,13 @@ func (acc *DB) GenesisInit(addr string, amount int64) (receipt *types.Receipt, e
 
 // GenesisInitExec 生成创世地址执行器账户收据
 func (acc *DB) GenesisInitExec(addr string, amount int64, execaddr string) (receipt *types.Receipt, err error) {
+	// what the deposit half below would refuse must be refused before the executor address is credited
+	if addr == execaddr {
+		return nil, types.ErrSendSameToRecv
+	}
+	if !acc.CheckAmount(amount) {
+		return nil, types.ErrAmount
+	}
 	accTo := acc.LoadAccount(execaddr)
 	copyto := types.CloneAccount(accTo)
 	accTo.Balance, err = safeAdd(accTo.GetBalance(), amount)
